@@ -226,6 +226,10 @@ def replay_trace_concrete(cfg: dict, inp: dict) -> dict:
                 for row, n in enumerate(tnames):
                     if not lf._same_bits(float(tr.values[row, col]), float(snap[n])):
                         bad.append(f'trace snapshot {lab} of {n} = {tr.values[row, col]!r}, value after the pass = {snap[n]!r}')
+        if oT['status'] == '.' and want and want[-1] == 'end':
+            for row, n in enumerate(tnames):
+                if not lf._same_bits(float(tr.values[row, -1]), float(mT[n][tc])):
+                    bad.append(f'final snapshot of {n} = {tr.values[row, -1]!r} but the stored solution is {mT[n][tc]!r}')
     return {'impl': lf._pub(oT), 'ref': lf._pub(oU), 'bad': bad}
 
 
@@ -250,7 +254,8 @@ def configs(tier: str):
                                 for cfe in ((True, False) if faults else (True,)):
                                     out.append(lf.default_cfg(N=N, B=B, errors=errors, failures=failures, cfe=cfe, t=t,
                                                               offset=offset, finite=False, faults=faults,
-                                                              hook_faults=faults and B <= 1, entry=entry, tracer=tracer))
+                                                              hook_faults=faults and B <= 1, entry=entry, tracer=tracer,
+                                                              post_write=(tracer is True)))
     return out
 
 
